@@ -464,6 +464,8 @@ def load_probes():
     add("wfx", "energy", "wfx", g_energy, file="water_sto3g_hf.wfx", after=(r"<Energy = T \+ Vne \+ Vee \+ Vnn>", 1))
     add("wfx", "atgradient", "wfx", g_grad, file="water_sto3g_hf.wfx", after=(r"<Nuclear Cartesian Energy Gradients>", 3))
     add("gaussianinput", "atcoords", "gaussianinput", g_coords, text=_gaussian_com, name="p.com", span=(6, 9))
+    add("gaussianinput-units-ang", "atcoords", "gaussianinput", g_coords,
+        text=lambda: _gaussian_com().replace("#p hf/sto-3g", "#p HF/aug-cc-pVDZ Units=(Ang,Deg) SCF=Tight"), name="p.com", span=(6, 9))
     add("json", "atcoords", "json_qcschema", g_coords, text=_json_text, name="p.json", after=(r'"geometry"', 10))
     add("json", "atmasses", "json_qcschema", g_mass, text=_json_text, name="p.json", after=(r'"masses"', 4))
     add("gamess", "atcoords", "gamess", g_coords, file="PCGamess_PUNCH.dat", after=(r"^ COORDINATES OF SYMMETRY UNIQUE ATOMS \(ANGS\)", 4), which=-1)
@@ -765,6 +767,26 @@ def search(ctx):
                      f"{fn} with the geometry header rewritten to {repl!r} loads coordinates {ratio:.6f} x those of the "
                      f"angstrom file; a table in {unit} must give {want:.6f} x (or be refused)",
                      {"kind": "header-unit", "file": fn, "fmt": iofmt, "pattern": pat, "repl": repl, "unit": unit})
+    # volumetric VASP files: the grid axes and the cell vectors are the same lengths in two representations
+    # (axes[i] * N_i = cellvecs[i]) — for skewed cells with different numbers of grid points along the vectors, too
+    from . import _readers as _R
+
+    for i in range(ctx.n(20, 120)):
+        m, _cls = _R.vasp_gen(ctx.rng, i, ctx.thorough)
+        raw = _R.vasp_write(m)
+        try:
+            d = _load_text("chgcar" if m["kind"] == "chgcar" else "locpot", raw.decode(), "CHGCAR.g" if m["kind"] == "chgcar" else "LOCPOT.g")
+        except Exception:  # noqa: BLE001
+            continue
+        if d.cube is None or d.cellvecs is None:
+            continue
+        rec = d.cube.axes * np.array(d.cube.shape, float).reshape(3, 1)
+        ok = bool(np.all(np.abs(rec - d.cellvecs) <= 1e-12 * (1.0 + np.abs(d.cellvecs))))
+        ctx.count("search-vasp-axes", raw.hex()[:2000], f"{m['kind']}/{'ok' if ok else 'BAD'}")
+        if not ok:
+            ctx.fail(f"unit:{m['kind']}:cube.axes:inconsistent-with-cellvecs",
+                     f"{m['kind']}: grid axes times grid counts differ from the cell vectors by {np.abs(rec - d.cellvecs).max():.3e} bohr "
+                     f"(shape {tuple(d.cube.shape)})", {"kind": "vasp-axes", "hex": raw.hex(), "fmt": m["kind"]})
     # masses of every fixture that carries them must be atomic masses in electron masses
     from iodata import load_one
 
@@ -845,6 +867,10 @@ def replay(ctx, obj):
         rows, _ = run_probes(None, strict=False)
         return any(_row_ok_py(spec, units, f, q, d, a, b, s) is not True for f, q, d, a, b, s, _n in rows
                    if (f, q, d) == (inp["fmt"], inp["qty"], inp["dir"]))
+    if inp["kind"] == "vasp-axes":
+        d = _load_text(inp["fmt"], bytes.fromhex(inp["hex"]).decode(), "CHGCAR.g" if inp["fmt"] == "chgcar" else "LOCPOT.g")
+        rec = d.cube.axes * np.array(d.cube.shape, float).reshape(3, 1)
+        return not bool(np.all(np.abs(rec - d.cellvecs) <= 1e-12 * (1.0 + np.abs(d.cellvecs))))
     if inp["kind"] == "header-unit":
         import re
 
